@@ -517,6 +517,36 @@ impl World {
     pub fn process_claimed(
         &mut self, key: Box<Ident>, value: Value
     ) -> TaskRun {
+        self.process_claimed_with(key, value, |_| {})
+    }
+
+    /// Directed claim of a pending key (same storage move the queue
+    /// performs) without processing it: returns the running key and value.
+    pub fn claim_directed(&self, pending_key: &str) -> Option<(Box<Ident>, Value)> {
+        let pending = Ident::from_str("pending").unwrap();
+        let running = Ident::from_str("running").unwrap();
+        let key = Ident::from_str(pending_key).ok()?;
+        let (_, name) = pending_key.split_once('-')?;
+        let new_key_s = format!("{}-{}", self.queue_now_ms(), name);
+        let new_key = Ident::from_str(&new_key_s).ok()?;
+        let value: Value = self.tasks_kv.execute(None, |kv| {
+            let v: Option<Value> = kv.get(Some(pending), key)?;
+            if v.is_some() {
+                kv.move_value(Some(pending), key, Some(running), new_key)?;
+            }
+            Ok(v)
+        }).ok()??;
+        Some((new_key.into(), value))
+    }
+
+    /// Processes an already claimed task; `between` runs after the task's
+    /// work and before the scheduler's completion call (finish / follow-up /
+    /// reschedule) - the instant at which, in the daemon, a request served by
+    /// another thread can commit while the task still counts as running.
+    pub fn process_claimed_with(
+        &mut self, key: Box<Ident>, value: Value,
+        between: impl FnOnce(&mut World),
+    ) -> TaskRun {
         let task: Task = match serde_json::from_value(value) {
             Ok(t) => t,
             Err(e) => {
@@ -536,6 +566,7 @@ impl World {
         let result = crate::util::catch(move || {
             verif_process_task(&slow, t2, started).map_err(|e| e.to_string())
         });
+        between(self);
         let completion = self.complete(&key, result);
         let run = TaskRun { key: key.to_string(), task, completion };
         self.task_log.push(run.clone());
